@@ -26,6 +26,7 @@ mod c19;
 mod c01;
 mod c04;
 mod c05;
+mod small;
 
 use std::io::{BufWriter, Write};
 
@@ -45,6 +46,7 @@ fn main() {
             let seed: u64 = args.get(4).and_then(|s| s.parse().ok()).unwrap_or(1);
             match prop {
                 "C11" => c11::gen(tier, seed, &mut out),
+                "SM" => small::gen(tier, seed, &mut out),
                 "C06" => c06::gen(tier, seed, &mut out),
                 "C03" => c03::gen(tier, seed, &mut out),
                 "C18" => c18::gen(tier, seed, &mut out),
@@ -117,6 +119,7 @@ fn main() {
 
 fn replay_one(toks: &[&str]) -> String {
     match toks[0] {
+        "SM" => small::observe(&toks[1..]),
         "C11" => {
             let mut ft = toks[1].split('@');
             let fmt: u32 = ft.next().unwrap().parse().unwrap();
